@@ -7,6 +7,7 @@ open Emboss.Lr1
 #print axioms C08_unambiguous
 #print axioms C08_accepts_iff
 #print axioms C08_terminates
+#print axioms C08_valid_not_terminating_counterexample
 #print axioms C08_decides
 #print axioms C08_terminates_accepting
 #print axioms C08_gen_valid_partial
